@@ -206,44 +206,94 @@ func c04Packet(c *fw.Ctx, i int) {
 	if c.WantSample() {
 		c.Sample(map[string]any{"packet": gen.Describe(p), "marshal_size": size})
 	}
-	for _, l := range c04Lengths(size, hdr, int(p.PadSize)) {
-		for mode := 0; mode < 6; mode++ {
-			dst := make([]byte, l)
-			spare := func() bool { return false }
-			if mode == 2 {
-				// a window into a larger buffer: capacity beyond len is not part of the destination
-				dst, spare = fw.Roomy(dst, size+16)
+	for phase := 0; phase < 2; phase++ {
+		if phase == 1 {
+			// the same Packet value is marshalled again after the application changed it: nothing learnt about it by an earlier
+			// MarshalTo (sizes, offsets) may be relied on
+			if !c.R.Chance(1, 3) {
+				break
 			}
-			if l == 0 && mode == 1 {
-				dst = nil
-			}
-			fillDst(c.R, dst, mode)
-			c04Stale(c.R, dst, want, mode)
-			before := append([]byte{}, dst...)
-			var n int
-			var e error
-			wit := func(extra ...any) map[string]any {
-				m := fw.W("packet", gen.Describe(p), "dst_len", l, "dst_before", fw.Trunc(fw.Hex(before), 200), "marshal_size", size)
-				for k := 0; k+1 < len(extra); k += 2 {
-					m[fmt.Sprint(extra[k])] = extra[k+1]
+			oldSize := size
+			switch c.R.Intn(5) {
+			case 0:
+				pk.CSRC = append(pk.CSRC, 0xC0FFEE)
+				if len(pk.CSRC) > 15 {
+					pk.CSRC = pk.CSRC[:15]
 				}
-				return m
+			case 1:
+				pk.Payload = append(append([]byte{}, pk.Payload...), c.R.Bytes(c.R.Range(1, 9))...)
+			case 2:
+				if len(pk.Payload) > 0 {
+					pk.Payload = pk.Payload[:len(pk.Payload)/2]
+				}
+			case 3:
+				pk.Padding, pk.PaddingSize = true, uint8(c.R.Range(1, 12))
+			default:
+				ids := pk.GetExtensionIDs()
+				if len(ids) > 0 && (pk.ExtensionProfile == 0xBEDE || pk.ExtensionProfile == 0x1000) {
+					for id := uint8(1); id <= 14; id++ {
+						if pk.GetExtension(id) == nil {
+							_ = pk.SetExtension(id, c.R.Bytes(c.R.Range(1, 9)))
+							break
+						}
+					}
+				} else if len(ids) == 0 && !pk.Extension {
+					_ = pk.SetExtension(3, []byte{1, 2, 3})
+				}
 			}
-			pv, st := fw.Guard(func() { n, e = pk.MarshalTo(dst) })
-			c.Evals(1)
-			if pv != nil {
-				c.Fail("C04/packet/panic/"+fw.PanicFunc(st)+"/dst-"+dstClass(l, size), fmt.Sprintf("Packet.MarshalTo panicked: %v", pv), wit("stack", st))
+			p = gen.FromLib(pk)
+			if pv, _ := fw.Guard(func() {
+				size = pk.MarshalSize()
+				hdr = pk.Header.MarshalSize()
+				want, err = pk.Marshal()
+			}); pv != nil || err != nil || len(want) != size {
+				c.Count("skipped_marshal_failed(C01)", 1)
 				return
 			}
-			if gen.Nontrivial(p) {
-				c.Shapef("%s|dst%s|fill%d", gen.ShapeKey(p), dstClass(l, size), mode)
+			if size == oldSize {
+				break
 			}
-			if spare() {
-				c.Fail("C04/packet/wrote-beyond-len-into-spare-capacity/dst-"+dstClass(l, size), fmt.Sprintf("MarshalTo wrote beyond len(dst)=%d into the destination slice's spare capacity (n=%d, err=%v)", l, n, e), wit())
-				return
-			}
-			if !c04Judge(c, "packet", p, want, size, hdr, dst, before, n, e, wit) {
-				return
+			c.Count("packets_marshalled_again_after_a_change", 1)
+		}
+		for _, l := range c04Lengths(size, hdr, int(p.PadSize)) {
+			for mode := 0; mode < 6; mode++ {
+				dst := make([]byte, l)
+				spare := func() bool { return false }
+				if mode == 2 {
+					// a window into a larger buffer: capacity beyond len is not part of the destination
+					dst, spare = fw.Roomy(dst, size+16)
+				}
+				if l == 0 && mode == 1 {
+					dst = nil
+				}
+				fillDst(c.R, dst, mode)
+				c04Stale(c.R, dst, want, mode)
+				before := append([]byte{}, dst...)
+				var n int
+				var e error
+				wit := func(extra ...any) map[string]any {
+					m := fw.W("packet", gen.Describe(p), "dst_len", l, "dst_before", fw.Trunc(fw.Hex(before), 200), "marshal_size", size)
+					for k := 0; k+1 < len(extra); k += 2 {
+						m[fmt.Sprint(extra[k])] = extra[k+1]
+					}
+					return m
+				}
+				pv, st := fw.Guard(func() { n, e = pk.MarshalTo(dst) })
+				c.Evals(1)
+				if pv != nil {
+					c.Fail("C04/packet/panic/"+fw.PanicFunc(st)+"/dst-"+dstClass(l, size), fmt.Sprintf("Packet.MarshalTo panicked: %v", pv), wit("stack", st))
+					return
+				}
+				if gen.Nontrivial(p) {
+					c.Shapef("%s|dst%s|fill%d", gen.ShapeKey(p), dstClass(l, size), mode)
+				}
+				if spare() {
+					c.Fail("C04/packet/wrote-beyond-len-into-spare-capacity/dst-"+dstClass(l, size), fmt.Sprintf("MarshalTo wrote beyond len(dst)=%d into the destination slice's spare capacity (n=%d, err=%v)", l, n, e), wit())
+					return
+				}
+				if !c04Judge(c, "packet", p, want, size, hdr, dst, before, n, e, wit) {
+					return
+				}
 			}
 		}
 	}
